@@ -1,7 +1,36 @@
 import PqlModel.Props.C04
 import PqlModel.Props.C05LexStatement
+import PqlModel.Props.C04Shape
+import PqlModel.Props.C04ShapeQuery
+import PqlModel.Props.C04ShapeCx
 #print axioms Pql.C04.C04_decode_string
 #print axioms Pql.C04.C04_decode_identifier
 #print axioms Pql.C04.C04_decode_string_clickhouse_partial
 #print axioms Pql.C04.C04_decode_identifier_clickhouse_partial
 #print axioms Pql.C04.K1_backslash_witness
+#print axioms Pql.C04.C04_content_parametric
+#print axioms Pql.C04.C04_string_parametric
+#print axioms Pql.C04.C04_string_parametric_scope
+#print axioms Pql.C04.C04_string_shape
+#print axioms Pql.C04.C04_number_parametric
+#print axioms Pql.C04.C04_number_shape
+#print axioms Pql.C04.C04_name_parametric
+#print axioms Pql.C04.C04_name_parametric_scope
+#print axioms Pql.C04.C04_name_shape
+#print axioms Pql.C04.C04_write_shape
+#print axioms Pql.C04.C04_write_parametric_partial
+#print axioms Pql.C04.C04_split_shape
+#print axioms Pql.C04.C04_compile_shape
+#print axioms Pql.C04.C04_compile_parametric_partial
+#print axioms Pql.C04.C04_compile_name_parametric_partial
+#print axioms Pql.C04.C04_write_string_shape
+#print axioms Pql.C04.C04_split_string_shape
+#print axioms Pql.C04.C04_compile_string_shape
+#print axioms Pql.C04.C04_compile_string_parametric_partial
+#print axioms Pql.C04.C04_name_cx_to_builtin
+#print axioms Pql.C04.C04_name_cx_from_builtin
+#print axioms Pql.C04.C04_name_cx_to_alias
+#print axioms Pql.C04.C04_name_cx_join_quoted
+#print axioms Pql.C04.C04_name_cx_scope
+#print axioms Pql.C04.C04_slice_cx
+#print axioms Pql.C04.C04_render_cx
